@@ -8,6 +8,8 @@ ORDER_OF = {"CubicSplineND": 3, "QuinticSplineND": 5, "SepticSplineND": 7}
 
 def facts_for(chk, wit="wit_quick.cpp", defines=()):
     F = load(chk.root, wit, defines)
+    from .. import roles
+    roles.canonicalise(F)          # private members are known by their role, not by their name (sa/roles.py)
     return F
 
 
@@ -382,3 +384,12 @@ def inline_value_lambdas(f):
     g = dict(f)
     g["body"] = rec(f.get("body"))
     return g
+
+
+def workspace_spline_field(F, wsrec):
+    """(name, type name) of the workspace member that is the spline itself: the one whose type is a spline class"""
+    cands = [x for x in F.record(wsrec)["fields"] if x["ty"].get("c") == "record" and (x["ty"].get("n") or "").count("::") == 1
+             and any((x["ty"].get("n") or "").startswith("SplineTrajectory::" + s_ + "<") for s_ in SPLINES) and (x["ty"].get("n") or "").endswith(">")]
+    if len(cands) != 1:
+        raise Broken("workspace spline member not identified in %s (%s)" % (wsrec, [x["name"] for x in cands]))
+    return cands[0]["name"], cands[0]["ty"]["n"]
